@@ -139,7 +139,8 @@ Fixpoint add_all (st : opt_state) (news : list (list Q * Q * option Q)) : option
 
 (* ---------------- the caller's arrays (D16) ---------------- *)
 (* an ndarray as the caller sees it: its shape, its values, and whether it owns
-   its buffer (ndarray.resize refuses to work on views) *)
+   its buffer (ndarray.resize refuses to change the SIZE of a view; a resize to
+   the same size just re-labels the shape of the object, view or not) *)
 Record ndarray := mk_arr { shape : list nat; data : list Q; owndata : bool }.
 
 Definition size (a : ndarray) : nat := length (data a).
@@ -148,9 +149,7 @@ Definition size (a : ndarray) : nat := length (data a).
    None = exception.  Pinned: self.x.resize([size,1]) acts on the caller's object. *)
 Definition init_x_pinned (x : ndarray) : option (ndarray * ndarray) :=
   match shape x with
-  | [_] => if owndata x
-           then let x' := mk_arr [size x; 1%nat] (data x) (owndata x) in Some (x', x')
-           else None
+  | [_] => let x' := mk_arr [size x; 1%nat] (data x) (owndata x) in Some (x', x')
   | _ => Some (x, x)
   end.
 
@@ -167,8 +166,9 @@ Definition shape_eqb (s1 s2 : list nat) : bool :=
 (* add_evaluation's treatment of new_x for a d-dimensional problem *)
 Definition new_x_pinned (d : nat) (nx : ndarray) : option (ndarray * ndarray) :=
   if shape_eqb (shape nx) [1%nat; d] then Some (nx, nx)
-  else if owndata nx
-       then let nx' := mk_arr [1%nat; d] (firstn d (data nx) ++ repeat 0 (d - size nx)) true in
+  else if Nat.eqb (size nx) d || owndata nx
+       then let nx' := mk_arr [1%nat; d] (firstn d (data nx) ++ repeat 0 (d - size nx))
+                              (owndata nx) in
             Some (nx', nx')
        else None.
 
